@@ -47,7 +47,7 @@ func (ex *Exec) mkEvent(kind int, obj *Term, str *Term, i *Term, obj2 *Term) *Te
 	if obj2 == nil {
 		obj2 = IntLit(0)
 	}
-	return MkEvent(IntLit(int64(kind)), obj, str, i, obj2)
+	return MkEvent(IntLit(int64(kind)), obj, str, i, obj2, IntLit(0))
 }
 
 func (ex *Exec) chanEvent(kind int, ch *Term, v Val) *Term {
@@ -69,6 +69,14 @@ func (ex *Exec) chanEvent(kind int, ch *Term, v Val) *Term {
 func (ex *Exec) emit(ev *Term) { ex.emitTo("$tr", ev) }
 
 func (ex *Exec) emitTo(trace string, ev *Term) {
+	// stamp the event with the global sequence number (order across traces)
+	seq := ex.getHeap(ex.cur, "$seq", SInt)
+	if ev.Op == "mkev" && !ev.IsSym {
+		ev = MkEvent(ev.Args[0], ev.Args[1], ev.Args[2], ev.Args[3], ev.Args[4], seq)
+	} else {
+		ev = MkEvent(EvKind(ev), EvObj(ev), EvStr(ev), EvInt(ev), EvObj2(ev), seq)
+	}
+	ex.setHeap(ex.cur, "$seq", ex.named("$seq", Add(seq, IntLit(1))))
 	tr := ex.getHeap(ex.cur, trace, ArrS(SInt, SEvent))
 	n := ex.getHeap(ex.cur, trace+"len", SInt)
 	ex.setHeap(ex.cur, trace, ex.named(trace, Store(tr, n, ev)))
@@ -192,6 +200,9 @@ func (ex *Exec) stepSelect(x *ssa.Select) {
 		} else {
 			tr := ex.getHeap(ex.cur, "$tr", ArrS(SInt, SEvent))
 			nl := ex.getHeap(ex.cur, "$trlen", SInt)
+			seq := ex.getHeap(ex.cur, "$seq", SInt)
+			ev = MkEvent(EvKind(ev), EvObj(ev), EvStr(ev), EvInt(ev), EvObj2(ev), seq)
+			ex.setHeap(ex.cur, "$seq", ex.named("$seq", Add(seq, IntLit(1))))
 			ex.setHeap(ex.cur, "$tr", ex.named("$tr", Ite(Ge(idx, IntLit(0)), Store(tr, nl, ev), tr)))
 			ex.setHeap(ex.cur, "$trlen", ex.named("$trlen", Ite(Ge(idx, IntLit(0)), Add(nl, IntLit(1)), nl)))
 		}
@@ -354,6 +365,21 @@ func (ex *Exec) applyContract(spec *FuncSpec, info calleeInfo, c *ssa.CallCommon
 		nr := ex.D.Fresh("$nextref", SInt)
 		ex.assume(Ge(nr, ex.getHeap(pre, "$nextref", SInt)))
 		ex.setHeap(post, "$nextref", nr)
+	}
+	modTrace := false
+	for _, cl := range spec.Clauses {
+		if cl.Kind == "modifies" {
+			for _, e := range cl.Exprs {
+				if id, ok := e.(*SIdent); ok && ex.V.db.IsTrace(id.Name) {
+					modTrace = true
+				}
+			}
+		}
+	}
+	if modTrace {
+		ns := ex.D.Fresh("$seq", SInt)
+		ex.assume(Ge(ns, ex.getHeap(pre, "$seq", SInt)))
+		ex.setHeap(post, "$seq", ns)
 	}
 	for _, cl := range spec.Clauses {
 		if cl.Kind != "modifies" {
@@ -533,6 +559,9 @@ func (ex *Exec) havocGhost(name string, pre, post *State) {
 		ex.assume(Ge(nn, pn))
 		k := BV("k!t", SInt)
 		ex.assume(Forall([]BVar{{"k!t", SInt}}, Imp(And(Le(IntLit(0), k), Lt(k, pn)), Eq(Select(ntr, k), Select(ptr, k)))))
+		// appended events carry sequence numbers of this call's interval
+		ex.assume(Forall([]BVar{{"k!t", SInt}}, Imp(And(Le(pn, k), Lt(k, nn)),
+			And(Le(ex.getHeap(pre, "$seq", SInt), EvSeq(Select(ntr, k))), Lt(EvSeq(Select(ntr, k)), ex.getHeap(post, "$seq", SInt))))))
 		ex.setHeap(post, name, ntr)
 		ex.setHeap(post, name+"len", nn)
 		return
